@@ -71,7 +71,9 @@ func genChain(t *kernel.Tape, g *gen) *ChainPlan {
 		case SBranch:
 			k := 2 + t.Plan(2)
 			for j := 0; j < k; j++ {
-				st.Nodes = append(st.Nodes, mk(fmt.Sprintf("%sb%d", key, j)))
+				nd := mk(fmt.Sprintf("%sb%d", key, j))
+				nd.NodeKey = t.PlanBool(35) // added with an explicit node key (WithNodeKey)
+				st.Nodes = append(st.Nodes, nd)
 			}
 			st.Multi = t.PlanBool(35)
 			st.Stream = g.o.Streams && t.PlanBool(40)
@@ -221,7 +223,11 @@ func (b *builder) compileChain(ctx context.Context, cp *ChainPlan) (compose.Runn
 				br = compose.NewChainBranch(func(ctx context.Context, in M) (string, error) { return first(pick(ctx)), nil })
 			}
 			for _, n := range st.Nodes {
-				br.AddLambda(n.Key, b.lambda(dummy, n, n.Key), compose.WithNodeName("n:"+n.Key))
+				opts := []compose.GraphAddNodeOpt{compose.WithNodeName("n:" + n.Key)}
+				if n.NodeKey {
+					opts = append(opts, compose.WithNodeKey("key_"+n.Key))
+				}
+				br.AddLambda(n.Key, b.lambda(dummy, n, n.Key), opts...)
 			}
 			c.AppendBranch(br)
 		case SPass:
